@@ -52,59 +52,6 @@ impl<const LIMBS: usize> vstd::std_specs::cmp::PartialEqSpecImpl for MontyParams
     open spec fn eq_spec(&self, other: &MontyParams<LIMBS>) -> bool { *self == *other }
 }
 
-// ---- a spec-level `Uint` with a given value
-
-/// the array whose first k limbs are the base-2^64 digits of x
-pub open spec fn digits_arr<const L: usize>(x: int, k: nat) -> [Limb; L]
-    decreases k
-{
-    if k == 0 { arbitrary() }
-    else { vstd::array::spec_array_update(digits_arr::<L>(x, (k - 1) as nat), k - 1, Limb(((x / bp((k - 1) as nat)) % B()) as u64)) }
-}
-/// the `Uint<L>` with value x (for 0 <= x < B^L)
-pub open spec fn uint_of<const L: usize>(x: int) -> Uint<L> { Uint { limbs: digits_arr::<L>(x, L as nat) } }
-
-proof fn lemma_digits<const L: usize>(x: int, k: nat)
-    requires x >= 0, k <= L
-    ensures val(digits_arr::<L>(x, k)@, k) == x % bp(k)
-    decreases k
-{
-    lemma_bp_succ(0);
-    if k == 0 {
-        assert(x % 1 == 0);
-    } else {
-        let j = (k - 1) as nat;
-        lemma_digits::<L>(x, j);
-        lemma_bp_succ(j);
-        let prev = digits_arr::<L>(x, j); let cur = digits_arr::<L>(x, k);
-        let d = (x / bp(j)) % B();
-        lemma_mod_bound(x / bp(j), B());
-        assert(cur@ == prev@.update(j as int, Limb(d as u64)));
-        lemma_val_ext(prev@, cur@, j);
-        assert(cur@[j as int].0 as int == d);
-        lemma_mod_breakdown(x, bp(j), B());
-        assert(bp(k) == bp(j) * B()) by (nonlinear_arith) requires bp(k) == B() * bp(j);
-        assert(d * bp(j) == bp(j) * d) by (nonlinear_arith);
-    }
-}
-
-pub proof fn lemma_uint_of<const L: usize>(x: int)
-    requires 0 <= x < bp(L as nat)
-    ensures uint_of::<L>(x).v() == x
-{
-    lemma_digits::<L>(x, L as nat);
-    lemma_small_mod(x as nat, bp(L as nat) as nat);
-}
-
-proof fn lemma_uint_eq<const L: usize>(a: Uint<L>, b: Uint<L>)
-    requires a.v() == b.v()
-    ensures a == b
-{
-    lemma_val_inj(a.limbs@, b.limbs@, L as nat);
-    assert(forall|k: int| 0 <= k < L ==> a.limbs@[k] == b.limbs@[k]);
-    assert(a.limbs =~= b.limbs);
-}
-
 // ---- the operator specification
 
 /// representative of the product: ((a.view() * b.view()) mod m) * R mod m
@@ -198,9 +145,6 @@ impl<const LIMBS: usize> Mul<MontyForm<LIMBS>> for &MontyForm<LIMBS> {
 //@+
     type Output = MontyForm<LIMBS>;
     // contract (vstd `MulSpecImpl`, see above): requires monty_mul_req(*self, rhs); ensures ret__ == monty_mul_spec(*self, rhs)
-    // Verus erases `&`: at VIR level this impl and `impl Mul<&MontyForm> for &MontyForm` (which the body calls) have the same
-    // (trait, type) key, so the call is reported as recursion; the /repo code is not recursive (it ends in the inherent `mul`)
-    #[verifier::exec_allows_no_decreases_clause]
 //@-
 fn mul(self, rhs: MontyForm<LIMBS>) -> (ret__: MontyForm<LIMBS>)
 {
@@ -213,9 +157,6 @@ impl<const LIMBS: usize> Mul<&MontyForm<LIMBS>> for MontyForm<LIMBS> {
 //@+
     type Output = MontyForm<LIMBS>;
     // contract (vstd `MulSpecImpl`, see above): requires monty_mul_req(self, *rhs); ensures ret__ == monty_mul_spec(self, *rhs)
-    // Verus erases `&`: at VIR level this impl and `impl Mul<&MontyForm> for &MontyForm` (which the body calls) have the same
-    // (trait, type) key, so the call is reported as recursion; the /repo code is not recursive (it ends in the inherent `mul`)
-    #[verifier::exec_allows_no_decreases_clause]
 //@-
 fn mul(self, rhs: &MontyForm<LIMBS>) -> (ret__: MontyForm<LIMBS>)
 //@+
@@ -267,6 +208,7 @@ where
         let params = MontyParams::new(p.to_odd().expect("p should be odd"));
 //@+
     proof {
+        let a = MontyForm::<LIMBS> { montgomery_form: uint_of::<LIMBS>(0), params: params };
         assert forall|a: MontyForm<LIMBS>, b: MontyForm<LIMBS>| a.wf() implies (#[trigger] monty_mul_spec(a, b)).wf() && monty_mul_spec(a, b).params == a.params
             && monty_mul_spec(a, b).view() == (a.view() * b.view()) % a.params.modulus.0.v() by { lemma_monty_mul_spec(a, b); }
         lemma_val_bound(p.0.limbs@, LIMBS as nat);
